@@ -45,9 +45,13 @@ pub struct Scenario {
 	/// one entry per operation thread: the API calls that thread makes, in order
 	ops: Vec<Vec<Unit>>,
 	events: Vec<Unit>,
+	/// base world variant in which the send waiting for finalisation carries a cutoff height one
+	/// block ahead (so that a mined block expires it)
+	#[serde(default)]
+	ttl: bool,
 }
 
-fn base_world(dir: &str) {
+fn base_world(dir: &str, ttl: bool) {
 	let mut w = World::create(dir, &[("A", "A"), ("B", "B"), ("M", "M")]);
 	w.mine_n("A", 5);
 	w.mine_n("B", 3);
@@ -65,7 +69,11 @@ fn base_world(dir: &str) {
 	a.post(s3.tx_or_err().unwrap()).unwrap();
 	let p_id = s1.id;
 	// Q: a send waiting for finalisation (with change)
-	let q1 = a.init_send(default_args(5 * G)).unwrap();
+	let mut qargs = default_args(5 * G);
+	if ttl {
+		qargs.ttl_blocks = Some(1);
+	}
+	let q1 = a.init_send(qargs).unwrap();
 	a.lock(&q1).unwrap();
 	let q2 = b.receive(&q1, None).unwrap();
 	// R1: an incoming payment not yet received
@@ -511,7 +519,7 @@ fn explore_scenario(root: &str, base: &Snapshot, sc: &Scenario, bound: Option<us
 }
 
 fn scenarios(thorough: bool) -> Vec<Scenario> {
-	let sc = |name: &str, r: Unit, ops: Vec<Vec<Unit>>, ev: Vec<Unit>| Scenario { name: name.into(), refresher: r, ops, events: ev };
+	let sc = |name: &str, r: Unit, ops: Vec<Vec<Unit>>, ev: Vec<Unit>| Scenario { name: name.into(), refresher: r, ops, events: ev, ttl: false };
 	let il = || vec![Unit::Init, Unit::Lock];
 	let mut v = vec![
 		sc("refresh+cancel-posted+mine", Unit::Refresh, vec![vec![Unit::CancelPosted]], vec![Unit::EvMine]),
@@ -522,6 +530,7 @@ fn scenarios(thorough: bool) -> Vec<Scenario> {
 		sc("scan+receive", Unit::Scan { delete_unconfirmed: false }, vec![vec![Unit::Receive]], vec![]),
 		sc("scan-delete+init-lock", Unit::Scan { delete_unconfirmed: true }, vec![il()], vec![]),
 		sc("scan-delete+cancel-pending", Unit::Scan { delete_unconfirmed: true }, vec![vec![Unit::CancelPending]], vec![]),
+		Scenario { ttl: true, ..sc("refresh+finalize-expiring+mine", Unit::Refresh, vec![vec![Unit::Finalize]], vec![Unit::EvMine]) },
 	];
 	if thorough {
 		v.extend(vec![
@@ -540,10 +549,10 @@ pub fn replay(payload: &Value) -> i32 {
 	std::env::set_var("GWV_SHOW_PANICS", "1");
 	sched::install_hooks();
 	let root = scratch_root();
-	let based = format!("{}/c20-replay-base", root);
-	base_world(&based);
-	let base = Snapshot::capture(&based);
 	let sc: Scenario = serde_json::from_value(payload["scenario"].clone()).unwrap();
+	let based = format!("{}/c20-replay-base", root);
+	base_world(&based, sc.ttl);
+	let base = Snapshot::capture(&based);
 	let schedule: Vec<usize> = serde_json::from_value(payload["schedule"].clone()).unwrap_or_default();
 	let perms = permutations(&sc);
 	let serial: Vec<Exec> = perms.iter().enumerate().map(|(i, o)| run_serial(&format!("{}/c20-replay-s{}", root, i), &base, o)).collect();
@@ -573,8 +582,11 @@ pub fn run(_args: &[String]) -> i32 {
 	sched::install_hooks();
 	let root = scratch_root();
 	let based = format!("{}/c20-base", root);
-	base_world(&based);
-	let base = Snapshot::capture(&based);
+	base_world(&based, false);
+	let base_plain = Snapshot::capture(&based);
+	let based_ttl = format!("{}/c20-base-ttl", root);
+	base_world(&based_ttl, true);
+	let base_ttl = Snapshot::capture(&based_ttl);
 	let mut scs = scenarios(thorough);
 	// recorded schedules of the known findings: re-run in every tier (pinned/C20.json, committed)
 	let pinned: Vec<Value> = std::fs::read(format!("{}/pinned/C20.json", verif_root())).ok().and_then(|b| serde_json::from_slice(&b).ok()).unwrap_or_default();
@@ -600,7 +612,8 @@ pub fn run(_args: &[String]) -> i32 {
 		let budget: u64 = std::env::var("GWV_C20_BUDGET").ok().and_then(|v| v.parse().ok()).unwrap_or(if thorough { 40_000 } else { 700 });
 		let pins: Vec<Vec<usize>> = pinned.iter().filter(|p| p["scenario"]["name"] == json!(sc.name)).filter_map(|p| serde_json::from_value(p["schedule"].clone()).ok()).collect();
 		let pinned_only = !thorough && std::env::var("GWV_C20_SCENARIO").is_err() && !scenarios(false).iter().any(|q| q.name == sc.name);
-		let r = explore_scenario(&root, &base, sc, None, per_wall, if pinned_only { 0 } else { budget }, &pins);
+		let base = if sc.ttl { &base_ttl } else { &base_plain };
+		let r = explore_scenario(&root, base, sc, None, per_wall, if pinned_only { 0 } else { budget }, &pins);
 		total += r.schedules;
 		distinct_total += r.distinct_final;
 		if r.cap_hit.is_some() {
